@@ -131,6 +131,15 @@ type Program struct {
 	// ("html" | "nil" | "custom") and no globals, and that other Set has already loaded every template some
 	// file extends. The Set a template was obtained from governs its execution, whoever parsed its layout.
 	ForeignLayout string `json:"foreign_layout,omitempty"`
+	// FailingWriter > 0: the destination of the observed Execute accepts FailingWriter-1 bytes and fails from
+	// then on; the Outcome's Out is what it accepted.
+	FailingWriter int `json:"failing_writer,omitempty"`
+	// FailOnPrefix != "": the destination of the observed Execute refuses, once, the first Write whose payload
+	// begins with these bytes (a transient failure); Outcome.Out is what it accepted, Outcome.PanicVal is
+	// "refused" if that Write came.
+	FailOnPrefix string `json:"fail_on_prefix,omitempty"`
+	// NilVars: Execute is handed a nil VarMap (Vars must be empty); functions are registered as globals instead.
+	NilVars bool `json:"nil_vars,omitempty"`
 }
 
 // ---- constructors used by generators ----
